@@ -516,6 +516,17 @@ def _check_case(ops, impl, skip_lines, stats):
             if i in skip_lines:
                 o.forget(None)     # a listed finding changed what the reload shows
             continue
+        if f[0] in ("shiftexp", "patchexp", "patch", "getidx", "fexp"):
+            # expiry-aware requests (C30's subject): what they change is not predicted here, only forgotten,
+            # so that the next GetAll and the reload comparison start from what the implementation shows
+            opno += 1
+            if f[0] == "patch":
+                o.forget([f[2]])
+                o.forget_existence()
+            elif f[0] in ("shiftexp", "patchexp"):
+                o.forget(None)
+                o.forget_existence()
+            continue
         if f[0] != "compact":
             opno += 1             # server stamps are written T<number of the request that took them>
         if i in skip_lines:
